@@ -16,7 +16,7 @@ CHECKS = {
         design="§4 C01"),
     "C02": dict(
         category="exploration",
-        technique="runtime monitoring: differential execution against the released libxcrypt 4.4.33 binary and independent reference models",
+        technique="runtime monitoring: differential execution against the released libxcrypt 4.4.33 binary and independent reference models; AVX2 and portable-C builds of the yescrypt core against the SSE2 build",
         text="Every successful tree result (at -O2 and under ASan) equals the released binary's and, where one exists, an "
              "independent model's result on the sampled (phrase, setting) space of all 16 methods.",
         note="Native yescrypt (flavours j, /) has no independent implementation offline - released binary only; costs above the budget are not hashed.",
@@ -25,7 +25,7 @@ CHECKS = {
         category="exploration",
         technique="runtime monitoring: metamorphic inequality oracle (phrase/salt perturbations) on an ASan+UBSan build",
         text="No perturbation of the phrase inside the documented significant window, and no change of the canonical salt/cost, "
-             "reproduced the digest on the executed bases; byte positions 0..510 enumerated in the thorough tier.",
+             "reproduced the digest on the executed bases; byte positions 0..510 enumerated in the thorough tier; yescrypt/scrypt cost grids at realistic sizes gave pairwise different digests.",
         note="Structural collisions outside the perturbation family are not searched; DES-based/$2x$/$2a$ driven 7-bit.",
         design="§4 C03"),
     "C04": dict(
@@ -38,7 +38,7 @@ CHECKS = {
         design="§4 C04"),
     "C05": dict(
         category="exploration",
-        technique="runtime monitoring: fail-closed shape monitor + independent must-fail oracle over byte x position sweeps and call histories",
+        technique="runtime monitoring: fail-closed shape monitor + independent must-fail oracle over byte x position sweeps and call histories, on the default build and on one with the other failure-token option",
         text="Every observed failure left NULL/the failure token, a documented errno and exactly the token in the output "
              "field; no request the must-fail oracle rejects produced a hash; thorough tier sweeps every byte value at "
              "every position of one valid setting per method.",
@@ -67,7 +67,7 @@ CHECKS = {
         design="§4 C08"),
     "C09": dict(
         category="exploration",
-        technique="runtime monitoring: data-object byte scan, poisoned private stack scan (-O0, -z now), realloc/munmap ledger inspection, entropy-buffer probe, primitive context checks",
+        technique="runtime monitoring: data-object byte scan (ASan build and a -O2 build using the library's own explicit_bzero), poisoned private stack scan (-O0, -z now), realloc/munmap ledger inspection, entropy-buffer probe, primitive context checks",
         text="After every executed call internal/reserved/initialized were zero (validation passed) or untouched (validation failed); "
              "no pass-phrase encoding was left in the object, the dead stack frames, reallocated or unmapped memory; entropy buffers and "
              "digest contexts were zero.",
@@ -96,7 +96,7 @@ CHECKS = {
         design="§4 C12"),
     "C13": dict(
         category="exploration",
-        technique="runtime monitoring: complete enumeration of the output_size grid on exact-size heap blocks under ASan",
+        technique="runtime monitoring: complete enumeration of the output_size grid on exact-size heap blocks under ASan, on the default build and four further --enable-hashes selections",
         text="The whole grid output_size -2..256 x prefixes x count classes x nrbytes classes was executed: no write outside the buffer, "
              "no abort, errno ERANGE/EINVAL, failure token, leading-part and monotonicity all held.",
         note="Exhaustive for the stated grid only.",
@@ -140,9 +140,9 @@ CHECKS = {
         category="exploration",
         technique="runtime monitoring over build configurations: headers generated by the repository's scripts per selection, library rebuilt and linked with the worker, corpus compared with the full build",
         text="All 16 singletons, the named groups, the full set, leave-one-out and guard-isolating selections (plus 100 random subsets in thorough) "
-             "built; enabled methods gave the full build's results, disabled tags were refused everywhere, default prefix / preferred method / "
+             "built; enabled methods gave the full build's results (also with the arguments inside a randomly filled object, and every result reproduced itself as a setting), disabled tags were refused everywhere, default prefix / preferred method / "
              "CRYPT_GENSALT_IMPLEMENTS_DEFAULT_PREFIX matched the strongest enabled default-capable method.",
-        note="2^16 subsets are sampled; configurations compiled at -O1 without sanitizers; obsolete-api/failure-token options not varied.",
+        note="2^16 subsets are sampled; configurations compiled at -O1 without sanitizers (C13/C14/C05/C09/C12/C20 vary sanitizers and the other configure options for their own clauses).",
         design="§4 C19"),
     "C20": dict(
         category="other",
